@@ -13,6 +13,10 @@ import (
 	"github.com/ozanh/ugo/token"
 )
 
+// errNegativeShift is returned by shift operators for a negative shift count,
+// which would otherwise panic in Go.
+var errNegativeShift = ErrType.NewError("negative shift count")
+
 // Int represents signed integer values and implements Object interface.
 type Int int64
 
@@ -90,6 +94,9 @@ func (o Int) BinaryOp(tok token.Token, right Object) (Object, error) {
 			}
 			return o / v, nil
 		case token.Rem:
+			if v == 0 {
+				return nil, ErrZeroDivision
+			}
 			return o % v, nil
 		case token.And:
 			return o & v, nil
@@ -100,8 +107,14 @@ func (o Int) BinaryOp(tok token.Token, right Object) (Object, error) {
 		case token.AndNot:
 			return o &^ v, nil
 		case token.Shl:
+			if v < 0 {
+				return nil, errNegativeShift
+			}
 			return o << v, nil
 		case token.Shr:
+			if v < 0 {
+				return nil, errNegativeShift
+			}
 			return o >> v, nil
 		case token.Less:
 			return Bool(o < v), nil
@@ -236,6 +249,9 @@ func (o Uint) BinaryOp(tok token.Token, right Object) (Object, error) {
 			}
 			return o / v, nil
 		case token.Rem:
+			if v == 0 {
+				return nil, ErrZeroDivision
+			}
 			return o % v, nil
 		case token.And:
 			return o & v, nil
@@ -502,6 +518,9 @@ func (o Char) BinaryOp(tok token.Token, right Object) (Object, error) {
 			}
 			return o / v, nil
 		case token.Rem:
+			if v == 0 {
+				return nil, ErrZeroDivision
+			}
 			return o % v, nil
 		case token.And:
 			return o & v, nil
@@ -512,8 +531,14 @@ func (o Char) BinaryOp(tok token.Token, right Object) (Object, error) {
 		case token.AndNot:
 			return o &^ v, nil
 		case token.Shl:
+			if v < 0 {
+				return nil, errNegativeShift
+			}
 			return o << v, nil
 		case token.Shr:
+			if v < 0 {
+				return nil, errNegativeShift
+			}
 			return o >> v, nil
 		case token.Less:
 			return Bool(o < v), nil
